@@ -36,10 +36,7 @@ try:
                 passed.add(f"{tc.get('classname')}::{tc.get('name')}")
         missing = [t for t in base['stable_pass'] if t not in passed]
         meta["baseline_tests_now_failing"] = missing
-        shutil.copy(f"/verif/evidence/{prop}.json", f"/dev/shm/ev_{prop}.json") if os.path.exists(f"/verif/evidence/{prop}.json") else None
-        ck = run(f"cd /verif && /venv/bin/python -m pbt.run {prop} --tier quick", env=dict(os.environ, VERIF_REPO=wt, PYTHONHASHSEED="0", PYTHONDONTWRITEBYTECODE="1"))
-        if os.path.exists(f"/dev/shm/ev_{prop}.json"):
-            shutil.copy(f"/dev/shm/ev_{prop}.json", f"/verif/evidence/{prop}.json")
+        ck = run(f"cd /verif && /venv/bin/python -m pbt.run {prop} --tier quick", env=dict(os.environ, VERIF_REPO=wt, VERIF_EVIDENCE_DIR=wt + "/evidence_out", PYTHONHASHSEED="0", PYTHONDONTWRITEBYTECODE="1"))
         meta["check_cmd"] = f"VERIF_REPO=<patched worktree> python -m pbt.run {prop} --tier quick"
         meta["check_exit"] = ck.returncode
         meta["check_violation_lines"] = [l for l in ck.stdout.splitlines() if l.startswith("VIOLATION")][:5]
